@@ -65,6 +65,15 @@ THEOREMS = [
     "Nix.C05.shape_membership_by_object",
     "Nix.C05.shape_frame_unit_getter",
     "Nix.C05.shape_frame_unit_setter",
+    "Nix.C05.shape_accept_link",
+    "Nix.C05.shape_accept_source",
+    "Nix.C05.shape_extend",
+    "Nix.C05.extend_all_or_nothing",
+    "Nix.C05.extend_single_is_append",
+    "Nix.C05.detached_refused_by_lists",
+    "Nix.C05.detached_refused_by_extend",
+    "Nix.C05.detached_refused_by_roles",
+    "Nix.C05.deleted_is_detached",
 ]
 ASSUMPTIONS = [
     "HDF5 hard links are second names of one object (modelled: a link stores the target node's key); h5py object "
@@ -79,6 +88,9 @@ ASSUMPTIONS = [
     "the class of its argument) is not generated",
     "the pre-1.5 alias-range layout and polynomial calibration are outside the model (DimensionLink reads the "
     "stored values)",
+    "a kept entity handle is modelled as nixio's H5Group has it: parent group object, link name, opened object; it stands "
+    "for what its name leads to in the parent when the name exists there, else for the opened object (HDF5 keeps an "
+    "unlinked object alive while a handle is open; the model never drops a node)",
 ]
 TRUSTED_EXTRA = ["harness/extract/linkshape.py (ast translator of the link methods), harness/lib/storeimpl.py + storegen.py + harness/props/c05.py Impl5 (path addressing by iteration, "
                  "access through a dimension link via DimensionLink._linked_group)"]
@@ -97,7 +109,13 @@ MANIFEST = {
                   "refused, and dim.unit = text / '' / None is an accepted write to the frame's units (frame with or without "
                   "units) seen through the dimension and the frame alike, as is frame.units = ... through any path; a re-link leads to the "
                   "node handed in whatever id it carries; "
-                  "explicit ticks and a link exclude each other after every dimension operation. The statement lists of "
+                  "explicit ticks and a link exclude each other after every dimension operation. The complete bodies of "
+                  "LinkContainer._accept and SourceLinkContainer._accept are regenerated statement by statement (no statement "
+                  "lets an item through before the membership test) and, run on any graph, list and key, are proved to decide "
+                  "as the model's append does; extend is proved all-or-nothing (every item checked in the unchanged graph, "
+                  "extend([x]) = append(x)); a node no group links any more (what a handle kept across the deletion of its "
+                  "entity stands for) is proved refused by every list (append and extend), by positions / extents and by "
+                  "feature data, and deleting an entity from its block is proved to leave it such a node. The statement lists of "
                   "link_data_array / link_data_frame / remove_link / the ticks setter, the DataFrame branch of the DimensionLink.unit "
                   "getter and setter, the membership tests in front of "
                   "every link assignment and the object comparisons of Container.__contains__ / SourceLinkContainer are "
@@ -105,8 +123,12 @@ MANIFEST = {
                   "write, that the generated writes are the model's and that the generated unit getter / setter branch, executed on "
                   "any frame content, is the model's linkFrameUnit / setFrameUnit. Tied to the code also by "
                   "differential execution of seeded histories on real HDF5 files (2-3 blocks with equal names, every "
-                  "mutation through a random path, read back through all paths, HDF5-level dumps) and an "
-                  "implementation-side oracle whose scene holds pairs of distinct entities with the same id (id-keeping copies "
+                  "mutation through a random path, read back through all paths, handles kept across deletions and re-creations "
+                  "and offered to lists / roles / features, extend with members and non-members, HDF5-level dumps) and an "
+                  "implementation-side oracle that also offers handles standing for no member of the block (kept across a "
+                  "deletion, entities inside a copied tag / multi-tag, entities of a deleted block; taken from the same Block "
+                  "object as the list) to every list, role link and feature, assigns the value a getter returns (explicit ticks = "
+                  "the linked values) and whose scene holds pairs of distinct entities with the same id (id-keeping copies "
                   "inside a block, across blocks, a whole copied block, a copied section), keeps its books by HDF5 object "
                   "identity and re-points every kind of link (lists, positions/extents, feature data, metadata, dimension "
                   "links to arrays and frame columns) between such pairs.",
@@ -144,9 +166,50 @@ def unfr(s):
 
 
 class Impl5(Impl):
+    """the store protocol on a real file.  Like a program that keeps `blk = f.blocks[name]` and takes everything from
+    it, the runner keeps ONE Block object per block (until the file is reopened): every handle it navigates to has
+    that object as its Python parent.  `hold` keeps a handle alive under a name for later `…_h` operations."""
+
+    def __init__(self, path, literal_uuid_names=()):
+        Impl.__init__(self, path, literal_uuid_names)
+        self._blocks = {}
+        self.held = {}
+
+    def reopen(self, mode="a"):
+        self._blocks = {}
+        self.held = {}
+        Impl.reopen(self, mode)
+
+    def block(self, name):
+        b = self._blocks.get(name)
+        if b is not None:
+            try:
+                if name in self.f.blocks and bool(self.f.blocks[name]._h5group.group == b._h5group.group):
+                    return b
+            except Exception:
+                pass
+            del self._blocks[name]
+        for e in self.f.blocks:
+            if e.name == name:
+                self._blocks[name] = e
+                return e
+        return None
+
+    def key_arg(self, k):
+        if "h" in k:
+            if k["h"] not in self.held:
+                raise BadOp("no such handle")
+            return self.held[k["h"]]
+        return Impl.key_arg(self, k)
+
     def nav(self, path):
         cur = self.f
         i = 0
+        if len(path) >= 2 and path[0] == "data" and isinstance(path[1], str):
+            cur = self.block(path[1])
+            if cur is None:
+                raise BadOp("no item named %r" % path[1])
+            i = 2
         while i < len(path):
             seg = path[i]
             if isinstance(cur, nixio.DataArray) and seg == "dimensions":
@@ -374,6 +437,39 @@ class Impl5(Impl):
                 return len(self.array(op[1]).dimensions)
             except AttributeError:
                 raise BadOp("no such array")
+        if kind == "hold":
+            e = self.nav(op[2])
+            self.held[op[1]] = e
+            return self.ident(e)
+        if kind == "read_h":
+            if op[1] not in self.held:
+                raise BadOp("no such handle")
+            return self.read_entity(self.held[op[1]])
+        if kind == "append_h":
+            cont = self.container(self.nav(op[1]), op[2])
+            cont.append(self.key_arg(op[3]))
+            return None
+        if kind == "extend":
+            cont = self.container(self.nav(op[1]), op[2])
+            cont.extend([self.key_arg(k) for k in op[3]])
+            return None
+        if kind == "has_h":
+            cont = self.container(self.nav(op[1]), op[2])
+            return bool(self.key_arg(op[3]) in cont)
+        if kind == "set_role_h":
+            owner = self.nav(op[1])
+            if op[3] not in self.held:
+                raise BadOp("no such handle")
+            if not hasattr(type(owner), op[2]):
+                raise AttributeError(op[2])
+            setattr(owner, op[2], self.held[op[3]])
+            return None
+        if kind == "create_feature_h":
+            owner = self.nav(op[1])
+            if op[2] not in self.held:
+                raise BadOp("no such handle")
+            owner.create_feature(self.held[op[2]], op[3])
+            return None
         return Impl._run(self, op)
 
 
@@ -607,9 +703,10 @@ class Gen5:
         ents, dims, feats = survey(self.impl)
         weights = {
             "links": [("append", 0.3), ("role", 0.14), ("mutate", 0.2), ("write", 0.08), ("dim", 0.12), ("unlink", 0.06),
-                      ("delete", 0.04), ("feature", 0.06), ("fwrite", 0.02), ("funit", 0.04)],
+                      ("delete", 0.04), ("feature", 0.06), ("fwrite", 0.02), ("funit", 0.04), ("handle", 0.08),
+                      ("extend", 0.05)],
             "dims": [("dim", 0.5), ("write", 0.16), ("fwrite", 0.08), ("mutate", 0.12), ("append", 0.08), ("delete", 0.04),
-                     ("role", 0.04), ("funit", 0.12)],
+                     ("role", 0.04), ("funit", 0.12), ("handle", 0.03)],
         }[self.profile]
         r = rng.random() * sum(w for _, w in weights)
         action = weights[-1][0]
@@ -880,10 +977,22 @@ class Gen5:
                 ts.sort()
             ticks = ["%d/%d" % (t.numerator, t.denominator) for t in ts]
             tag = "dim_set_ticks/" + dkind
-            if tid is not None and dkind == "dim_range" and rng.random() < 0.5:
+            if tid is not None and dkind == "dim_range" and rng.random() < 0.6:
                 # the values the link yields right now, assigned as explicit ticks ("freezing" the ticks)
-                cur = (self.impl.run(["dim_read", ap, i]).get("ok") or {}).get("ticks")
-                if isinstance(cur, list) and cur:
+                def current():
+                    c = (self.impl.run(["dim_read", ap, i]).get("ok") or {}).get("ticks")
+                    return c if isinstance(c, list) and c else None
+                cur = current()
+                tk = ents.get(tid)
+                if cur is not None and tk is not None and tk.kind == "data_array" \
+                        and any(Fraction(b) < Fraction(a) for a, b in zip(cur, cur[1:])):
+                    # explicit ticks have to ascend: give the linked array ascending content first (sorted flat,
+                    # every axis vector of it ascends)
+                    d = (self.impl.run(["read", tk.paths[0]]).get("ok") or {}).get("data")
+                    if d:
+                        self.do(["da_write", self.anypath(tk), sorted(d["vals"], key=Fraction)], "write/sorted")
+                        cur = current()
+                if cur is not None:
                     ticks, tag = list(cur), tag + "/current-values-of-the-link"
             self.do(["dim_set_ticks", via, i, ticks], tag)
         elif r < 0.83:
@@ -902,6 +1011,101 @@ class Gen5:
                        and ents.get(tid) is k), None)
             if tk is not None:
                 self.do(["read", tk.paths[0]])
+
+    def a_extend(self, ents, dims, feats):
+        """`extend` with one to three items: members of the block, foreign same-named ones, wrong kinds, an entity
+        twice; all or nothing"""
+        rng = self.rng
+        ocont, cname, kind = rng.choice(LINK_LISTS)
+        okind = {"groups": "group", "tags": "tag", "multi_tags": "multi_tag", "data_arrays": "data_array"}[ocont]
+        owner = self.pick(ents, okind)
+        if owner is None:
+            return
+        keys, legal = [], True
+        for _ in range(rng.choice([1, 2, 2, 3])):
+            r = rng.random()
+            if r < 0.75:
+                tgt = self.pick(ents, kind, block=owner.block)
+            elif r < 0.92:
+                tgt, legal = self.pick(ents, kind, notblock=owner.block), False
+            else:
+                tgt = self.pick(ents)
+                legal = legal and tgt is not None and tgt.kind == kind and tgt.block == owner.block
+            if tgt is None:
+                return
+            keys.append({"o": self.anypath(tgt)})
+        op = owner.paths[0]
+        self.do(["list", op, cname])
+        self.do(["extend", op, cname, keys], "extend/%d-items/%s" % (len(keys), "all-members" if legal else "with-a-non-member"))
+        self.do(["list", op, cname])
+
+    def a_handle(self, ents, dims, feats):
+        """a handle kept across the deletion of its entity (sometimes another entity is created under the name
+        afterwards), then offered to link lists (append / extend next to a member), positions / extents, feature
+        data and create_feature; read through the kept handle; the lists are listed afterwards"""
+        rng = self.rng
+        kind = rng.choice(["data_array", "data_array", "data_array", "tag", "multi_tag", "source"])
+        k = self.pick(ents, kind)
+        if k is None or k.name in ("pos",):
+            return
+        if kind == "source" and len(k.paths[0]) > 4:
+            return                          # (top-level sources only: the deletion goes through the block's container)
+        self.nh = getattr(self, "nh", 0) + 1
+        h = "h%d" % self.nh
+        self.do(["hold", h, self.anypath(k)], "hold/" + kind)
+        p = k.paths[0]
+        bp = p[:2]
+        stale = rng.random() < 0.8
+        tagp = "stale" if stale else "live"
+        if stale:
+            self.do(["del", p[:-2], p[-2], {"s": k.name} if rng.random() < 0.5 else {"o": self.anypath(k)}], "delete/held")
+            if rng.random() < 0.5:
+                if kind == "data_array":
+                    shape = [2]
+                    self.do(["create_da", bp, k.name, "t", shape, self.rvals(shape)], "recreate/" + kind)
+                else:
+                    self.do(["create", bp, kind, k.name, "t", bp + ["data_arrays", "pos"] if kind == "multi_tag" else None],
+                            "recreate/" + kind)
+                tagp = "stale-recreated"
+        self.do(["read_h", h], "read_h/" + tagp)
+        lists = [(oc, cn) for oc, cn, kd in LINK_LISTS if kd == kind]
+        for _ in range(2):
+            ocont, cname = rng.choice(lists)
+            okind = {"groups": "group", "tags": "tag", "multi_tags": "multi_tag", "data_arrays": "data_array"}[ocont]
+            cands = [o for o in ents.values() if o.kind == okind and o is not k
+                     and (o.block == k.block or rng.random() < 0.15)]
+            if not cands:
+                continue
+            owner = rng.choice(cands)
+            op = owner.paths[0]
+            self.do(["has_h", op, cname, {"h": h}], "has_h/" + tagp)
+            if rng.random() < 0.55:
+                self.do(["append_h", op, cname, {"h": h}], "append_h/" + tagp)
+            else:
+                member = self.pick(ents, kind, block=owner.block)
+                keys = [{"h": h}]
+                if member is not None and member is not k:
+                    keys.insert(rng.randrange(2), {"o": self.anypath(member)})
+                self.do(["extend", op, cname, keys], "extend/handle-%s/%d-items" % (tagp, len(keys)))
+            self.do(["list", op, cname])
+        if kind == "data_array":
+            mts = [o for o in ents.values() if o.kind == "multi_tag" and o.block == k.block]
+            if mts and rng.random() < 0.7:
+                mt = rng.choice(mts)
+                role = rng.choice(["positions", "extents"])
+                self.do(["set_role_h", mt.paths[0], role, h], "set_role_h/" + tagp)
+                self.do(["role", mt.paths[0], role])
+            tgs = [o for o in ents.values() if o.kind in ("tag", "multi_tag") and o.block == k.block and o is not k]
+            if tgs and rng.random() < 0.5:
+                tg = rng.choice(tgs)
+                self.do(["create_feature_h", tg.paths[0], h, rng.choice(["tagged", "untagged", "indexed"])],
+                        "create_feature_h/" + tagp)
+                self.do(["list", tg.paths[0], "features"])
+            fs = [(fp, fb) for fp, fb in feats if fb == k.block]
+            if fs and rng.random() < 0.5:
+                fp, _ = rng.choice(fs)
+                self.do(["set_role_h", fp, "data", h], "set_role_h/feature-data/" + tagp)
+                self.do(["role", fp, "data"])
 
     def a_unlink(self, ents, dims, feats):
         rng = self.rng
@@ -1929,7 +2133,12 @@ class Scene:
             what += " (another %s was created under that name since)" % kind
         self.log.append(["delete %s %r from block %s by %s" % (kind, name, bn, how)] + (["create another one under that name"] if again else []))
         if self.is_member(handle, bn, kind):
-            return                          # (cannot happen: the entity was deleted)
+            # a nixio handle is (parent group, link name, opened object): once its link is gone it looks its name up
+            # again, so after the re-creation it stands for the NEW entity - a member of the block; nothing to refuse
+            self.log.append(["the kept handle now stands for the entity created under its name"])
+            if again:
+                del getattr(b, store)[name]
+            return
         self.offer(handle, kind, bn, what, b=b)
         if again:
             del getattr(b, store)[name]
